@@ -23,10 +23,13 @@
     arguments exchanged) is not a version of the code; it only appears in
     C18_swapped_comparison_writes_forever / C18_owner_key_removed; [reconcile_early_return] (Reconcile returning
     before ApplyToCluster for a pod that is already assigned, the seeded change C18-3) is not a version of the
-    code either; it only appears in C18_early_return_depends_on_history / C18_early_return_refuted. The theorems
-    named [_before_repair] keep the history of the three findings machine-checked. *)
+    code either; it only appears in C18_early_return_depends_on_history / C18_early_return_refuted; [memo_rc]
+    (getOwnerInstance remembering the kinds whose GET was once answered 403, the seeded change C18-4) is not a
+    version of the code either; it only appears in the three theorems named C18_forbidden_memo. The theorems
+    named [_before_repair] keep the history of the three findings machine-checked. Section (6) at the end is
+    about API faults on the owner GETs (namespaced RBAC that changes over time, transient 403 / 404 / 5xx). *)
 From Coq Require Import List String ZArith.
-From KaiV Require Import Model.Grouper Model.GrouperSpec Proofs.Grouper.
+From KaiV Require Import Model.Grouper Model.GrouperSpec Proofs.Grouper Model.GrouperFaults Proofs.GrouperFaults.
 Import ListNotations.
 
 (** (1) Pods with the same top owner and the same template-derived fields (queue, project,
@@ -486,3 +489,136 @@ Theorem C18_ownerless_pod_frozen :
   /\ get_asg "solo" hist = Some ex_bare_pg.
 Proof. exact ownerless_pod_frozen. Qed.
 Print Assumptions C18_ownerless_pod_frozen.
+
+(** (6) API FAULTS ON THE OWNER GETs (Model/GrouperFaults.v). Owner objects, pods and PodGroups live in
+    namespaces; the uncached GET of an owner of kind [k] for a pod of namespace [n] is answered 403 when the rule
+    [rb] holds [(n, k)] (namespaced RBAC; [FGrant] / [FRevoke] / [FRbac] change the rule over time), when [k] is
+    in [c_forbidden cfg] (refused everywhere), or when [k] is in the transient faults [tr_forbidden] of that
+    one reconcile; it is answered NotFound / 5xx when [k] is in [tr_failing] of that reconcile. On 403 the code
+    falls back to the last readable owner or to the pod itself (handleGetOwnerError), on any other error the
+    reconcile fails without a write. [frec rc]: one reconcile by a reconciler [rc] that may keep an instance
+    state [I] between reconciles; the code as it is keeps none ([code_rc], [I = unit]).
+
+    HISTORY INDEPENDENCE WITH FAULTS: any history [hs] from any start [fs0] - reconciles under whatever
+    transient faults, grants, revokes, replaced rules, and (lifted to a namespace) foreign updates, edited owner
+    objects, overwritten and deleted PodGroups -, followed by reconciles [ps] of pods with an owner reference (any
+    namespaces, any order, any repetitions, each under its own transient faults) under the final owner objects
+    and the final rule: in every namespace, every PodGroup that the same reconciles build on a pod-grouper that
+    JUST STARTED, from empty stores, exists and agrees with it on the grouper-owned part, and every pod assigned
+    there is assigned to the same PodGroup. *)
+Theorem C18_history_independent_with_faults :
+  forall cfg (fs0 : fstate unit) (hs : list fevent) (ps : list (string * pod * transient)),
+    (forall x, In x ps -> p_owners (snd (fst x)) <> []) ->
+    let fs := frun code_rc cfg hs fs0 in
+    let hist := frecs code_rc cfg (fs_objs fs) (fs_rbac fs) ps (fs_ws fs, fs_inst fs) in
+    let fresh := frecs code_rc cfg (fs_objs fs) (fs_rbac fs) ps ([], tt) in
+    forall n,
+      (forall g gf, get_pg g (get_ns n (fst fresh)) = Some gf ->
+                    exists gh, get_pg g (get_ns n (fst hist)) = Some gh /\ owned_agree cfg gf gh)
+      /\ (forall k x, get_asg k (get_ns n (fst fresh)) = Some x -> get_asg k (get_ns n (fst hist)) = Some x).
+Proof. exact fault_history_independent. Qed.
+Print Assumptions C18_history_independent_with_faults.
+
+(** the same as a statement about a reconciler with instance state, for the refutation below *)
+Theorem C18_history_independent_with_faults_statement_holds : fault_history_independent_statement tt code_rc.
+Proof. exact fault_history_independent. Qed.
+Print Assumptions C18_history_independent_with_faults_statement_holds.
+
+(** (6') ONE RECONCILE IS A FUNCTION OF THE POD, THE OBJECTS OF ITS NAMESPACE AND THE ANSWERS OF THE MOMENT.
+    [fmd cfg objs rb n p tr None] - the metadata computed from the owner chain of [p] under the rule [rb] and the
+    transient faults [tr] - takes no store: whatever the stores [ws] hold (whatever was reconciled before, in
+    whatever order, under whatever answers), the reconcile leaves every other namespace alone and either fails
+    without a write ([None]: an owner GET answered NotFound / 5xx, a stale uid, two owners) or assigns the pod to
+    PodGroup [m_name m], which then exists, agrees with [create_pg m] on the grouper-owned part, and IS
+    [create_pg m] after the API round trip when the reconcile created it. *)
+Theorem C18_assignment_function_of_answers :
+  forall cfg objs rb n p tr ws,
+    p_owners p <> [] ->
+    let r := freconcile cfg objs rb n p tr ws in
+    (forall n', n' <> n -> get_ns n' (fst r) = get_ns n' ws)
+    /\ match fmd cfg objs rb n p tr None with
+       | None => get_ns n (fst r) = get_ns n ws /\ snd r = 0%Z
+       | Some m => get_asg (p_name p) (get_ns n (fst r)) = Some (m_name m)
+                   /\ (exists g, get_pg (m_name m) (get_ns n (fst r)) = Some g
+                                 /\ owned_agree cfg (norm (create_pg m)) g)
+                   /\ (get_pg (m_name m) (get_ns n ws) = None ->
+                       get_pg (m_name m) (get_ns n (fst r)) = Some (norm (create_pg m)))
+       end.
+Proof. exact assignment_function_of_answers. Qed.
+Print Assumptions C18_assignment_function_of_answers.
+
+(** ... in particular after ANY history of reconciles, grants, revokes and the other events: the PodGroup a pod
+    is assigned to by its next reconcile is the one computed from the FINAL answers alone *)
+Theorem C18_assignment_after_any_history :
+  forall cfg (fs0 : fstate unit) hs n p tr m,
+    p_owners p <> [] ->
+    let fs := frun code_rc cfg hs fs0 in
+    fmd cfg (fs_objs fs) (fs_rbac fs) n p tr None = Some m ->
+    let ws' := fst (freconcile cfg (fs_objs fs) (fs_rbac fs) n p tr (fs_ws fs)) in
+    get_asg (p_name p) (get_ns n ws') = Some (m_name m)
+    /\ exists g, get_pg (m_name m) (get_ns n ws') = Some g /\ owned_agree cfg (norm (create_pg m)) g.
+Proof. exact assignment_after_any_history. Qed.
+Print Assumptions C18_assignment_after_any_history.
+
+(** (6'') SIBLINGS UNDER EQUAL ANSWERS SHARE THE GROUP: two pods of one namespace with the same owner
+    reference and template-derived fields, each reconciled at its own moment - other rule, other transient
+    faults, other stores - but answered alike ([same_answers]: the same kinds refused, the same kinds failing,
+    read as sets), are assigned to the same PodGroup pg-<owner>-<uid> whenever the default grouper derives the
+    group from an owner object. *)
+Theorem C18_siblings_under_equal_answers :
+  forall cfg objs n rb tr rb' tr' p q a g os ws ws',
+    same_answers cfg n rb tr rb' tr' ->
+    same_template cfg p q ->
+    grouping (eff_cfg cfg rb n tr) (visible (tr_failing tr) (cluster_of objs n)) p a = GOk PDefault g os false ->
+    exists m, m_name m = pg_name (o_name g) (o_uid g)
+              /\ get_asg (p_name p) (get_ns n (fst (freconcile cfg objs rb n p tr ws))) = Some (m_name m)
+              /\ get_asg (p_name q) (get_ns n (fst (freconcile cfg objs rb' n q tr' ws'))) = Some (m_name m).
+Proof. exact siblings_under_equal_answers. Qed.
+Print Assumptions C18_siblings_under_equal_answers.
+
+(** What asking the API server again is for. [memo_rc] is NOT the code: getOwnerInstance remembering every KIND
+    whose GET was once answered 403 and answering Forbidden by itself from then on (seeded change C18-4) - the
+    instance state is the list of remembered kinds. World of seeded/C18-4/README.md: Foo team-b/train owns the
+    pods train-0 and train-1, Foo team-a/other owns other-0, Foos may be read in team-b but not in team-a.
+    Outcome = (PodGroup of train-0, PodGroup of train-1, number of PodGroups in team-b). The code as it is gives
+    (pg-train-uid-train, pg-train-uid-train, 1) for the five reconcile orders of the README; the memo gives it
+    only when other-0 is absent or last, splits the siblings in [train-0; other-0; train-1], gives every pod
+    its own group in [other-0; train-0; train-1], and moves both pods out of their group when unchanged pods are
+    reconciled again. A single transient 403 has the same effect for ever. *)
+Theorem C18_forbidden_memo_depends_on_history :
+  ex_outcome tt code_rc [rec_t0; rec_t1] = (ex_shared, ex_shared, 1%nat)
+  /\ ex_outcome tt code_rc [rec_t0; rec_t1; rec_o0] = (ex_shared, ex_shared, 1%nat)
+  /\ ex_outcome tt code_rc [rec_t0; rec_o0; rec_t1] = (ex_shared, ex_shared, 1%nat)
+  /\ ex_outcome tt code_rc [rec_o0; rec_t0; rec_t1] = (ex_shared, ex_shared, 1%nat)
+  /\ ex_outcome tt code_rc [rec_t0; rec_t1; rec_o0; rec_t0; rec_t1] = (ex_shared, ex_shared, 1%nat)
+  /\ ex_outcome [] memo_rc [rec_t0; rec_t1] = (ex_shared, ex_shared, 1%nat)
+  /\ ex_outcome [] memo_rc [rec_t0; rec_t1; rec_o0] = (ex_shared, ex_shared, 1%nat)
+  /\ ex_outcome [] memo_rc [rec_t0; rec_o0; rec_t1] = (ex_shared, Some "pg-train-1-uid-train-1", 2%nat)%string
+  /\ ex_outcome [] memo_rc [rec_o0; rec_t0; rec_t1] = (Some "pg-train-0-uid-train-0", Some "pg-train-1-uid-train-1", 2%nat)%string
+  /\ ex_outcome [] memo_rc [rec_t0; rec_t1; rec_o0; rec_t0; rec_t1]
+     = (Some "pg-train-0-uid-train-0", Some "pg-train-1-uid-train-1", 3%nat)%string
+  /\ ex_outcome [] memo_rc [FRec "team-b" ex_train0 {| tr_forbidden := ["Foo"%string]; tr_failing := [] |}; FGrant "team-a" "Foo";
+                            rec_t1; rec_t0]
+     = (Some "pg-train-0-uid-train-0", Some "pg-train-1-uid-train-1", 2%nat)%string
+  /\ ex_outcome tt code_rc [FRec "team-b" ex_train0 {| tr_forbidden := ["Foo"%string]; tr_failing := [] |}; FGrant "team-a" "Foo";
+                            rec_t1; rec_t0]
+     = (ex_shared, ex_shared, 2%nat).
+Proof. exact forbidden_memo_depends_on_history. Qed.
+Print Assumptions C18_forbidden_memo_depends_on_history.
+
+(** ... so the memo REFUTES history independence with faults (after other-0 was reconciled, train-1 is not where
+    a pod-grouper that just started puts it) *)
+Theorem C18_forbidden_memo_refuted : ~ fault_history_independent_statement [] memo_rc.
+Proof. exact forbidden_memo_refuted. Qed.
+Print Assumptions C18_forbidden_memo_refuted.
+
+(** ... and the sibling clause: same namespace, same owner, same answers - two PodGroups; one with the code *)
+Theorem C18_forbidden_memo_splits_siblings :
+  same_answers ex_fcfg "team-b" ex_rule no_fault ex_rule no_fault
+  /\ same_template ex_fcfg ex_train0 ex_train1
+  /\ (let s := get_ns "team-b" (fs_ws (frun memo_rc ex_fcfg [rec_t0; rec_o0; rec_t1] (ex_start []))) in
+      get_asg "train-0" s <> get_asg "train-1" s)
+  /\ (let s := get_ns "team-b" (fs_ws (frun code_rc ex_fcfg [rec_t0; rec_o0; rec_t1] (ex_start tt))) in
+      get_asg "train-0" s = get_asg "train-1" s).
+Proof. exact forbidden_memo_splits_siblings. Qed.
+Print Assumptions C18_forbidden_memo_splits_siblings.
